@@ -8,7 +8,8 @@ ID = "C13"
 MANIFEST = {
     "level": "Bounded model checking by symbolic execution of every read-only entry point (neighbors, find_links, bft / "
              "dft_recursive / dft_iterative, bfs / dfs_recursive / dfs_iterative, basic_render, render_to_plantuml_src "
-             "incl. user_render_func, make_pyvis_net, pyvis_render_customizable) over a symbolic graph and universe, "
+             "incl. user_render_func, make_pyvis_net, pyvis_render_customizable, and nrpickler.dump - the real lazy pickler over an "
+             "abstract base pickler that follows the instance protocol, __getstate__ included) over a symbolic graph and universe, "
              "caching on or off, with every user call-back an uninterpreted function that raises at its k-th invocation "
              "for a SYMBOLIC k (so every fault point, and no fault, are covered by one query; the fault is an Exception "
              "subclass or, in extra configurations, a BaseException that is not one). Around a fault-free call "
@@ -17,8 +18,8 @@ MANIFEST = {
              "repeated with the well-behaved call-back must return the fault-free answer; afterwards every cached "
              "neighbors() answer must equal the uncached one.",
     "note": "Bounds: 3 vertices, 2 links (fully symbolic ends and orders), 1 universe; the traversals with call-backs and basic_render(sort=) run on one (quick) / two (thorough) fixed 3-cycles (the fault point, the call-back's answers, the universe and the cache flag stay symbolic). The contents of the per-vertex memo and the class-level statistics "
-            "are not observable state; the set of attribute names is. nrpickler.dumps is covered by native replays in "
-            "C10 only. Trusted: pysym (validated per path on CPython), z3, the pyvis Network model (validated per path).",
+            "are not observable state; the set of attribute names is. nrpickler.dumps differs from dump only by the BytesIO it writes to (real byte streams: C10's "
+            "native replays). Trusted: pysym (validated per path on CPython), z3, the pyvis Network model (validated per path).",
     "design_ref": "DESIGN.md 5 (C13)",
 }
 
